@@ -19,7 +19,7 @@ LOOKUPS = CACHED + LIVE
 RULE = (
     "history = list of construction calls (add_node, add_nodes, add_link, add_links, add_origin, add_destination, "
     "add_path with/without origin/destination, incl. replacing the link of an edge or the origin/destination of a "
-    "node, and a malformed path) interleaved with reads of subsets of the 15 lookups. Exhaustive tier: universe of 3 "
+    "node, a malformed path, and bulk calls that raise after a partial insertion) interleaved with reads of subsets of the 15 lookups. Exhaustive tier: universe of 3 "
     "nodes (two share a name), 2 links, 2 origins, 2 destinations (names partly clashing), 60 concrete mutators; all "
     "mutator histories up to length L (quick L=2, thorough L=3), each under read disciplines: read all after every "
     "step; read all only at the end; read all before the last mutator; read exactly one cached lookup (each of 9) "
@@ -60,6 +60,9 @@ def small_mutators():
                 if (o is None) or (d is None) or path[0] == "n0":
                     ms.append(["add_path", path, o, d])
     ms.append(["add_path", ["n0", "l0", "n1", "l1"], None, "d1"])  # malformed: rejected, graph partly built
+    ms.append(["add_nodes", ["n2", "$none"]])  # raises after n2 was inserted
+    ms.append(["add_link", "n1", "l1", "$none"])  # raises after n1 was inserted
+    ms.append(["add_links", [["n0", "l1", "n2"], ["n2"]]])  # raises after the first link was inserted
     return ms
 
 
@@ -124,11 +127,17 @@ def cases(draw):
     op = st.one_of(
         st.tuples(st.just("add_node"), node).map(list),
         st.tuples(st.just("add_nodes"), st.lists(node, min_size=1, max_size=3)).map(list),
+        st.tuples(st.just("add_nodes"), st.lists(node, min_size=1, max_size=3), st.just("$gen")).map(list),
+        st.tuples(st.just("add_links"), st.lists(triple, min_size=1, max_size=3), st.just("$gen")).map(list),
+        st.tuples(st.just("add_path"), path(), st.one_of(st.none(), orig), st.one_of(st.none(), dest), st.just("$gen")).map(list),
         st.tuples(st.just("add_link"), node, link, node).map(list),
         st.tuples(st.just("add_links"), st.lists(triple, min_size=1, max_size=3)).map(list),
         st.tuples(st.just("add_origin"), orig, node).map(list),
         st.tuples(st.just("add_destination"), dest, node).map(list),
         st.tuples(st.just("add_path"), path(), st.one_of(st.none(), orig), st.one_of(st.none(), dest)).map(list),
+        st.tuples(st.just("add_nodes"), st.tuples(node, st.just("$none")).map(list)).map(list),
+        st.tuples(st.just("add_link"), node, link, st.just("$none")).map(list),
+        st.tuples(st.just("add_links"), st.tuples(triple, st.tuples(node).map(list)).map(list)).map(list),
         st.tuples(st.just("read"), st.lists(st.sampled_from(LOOKUPS), min_size=1, max_size=4, unique=True)).map(list),
         st.tuples(st.just("read"), st.lists(st.sampled_from(CACHED), min_size=1, max_size=2, unique=True)).map(list),
     )
@@ -285,9 +294,11 @@ def check_case(case, ctx):
         if crashed(r):
             return
         last_mut = op[0]
-        if r[0] == "raised":
-            ctx.label("path-raised")
+        if r[0] in ("raised", "invalid-accepted"):
+            ctx.label("path-raised" if op[0] == "add_path" else "invalid-call-" + r[0])
             sim.resync_model()
+            if r[0] == "invalid-accepted":
+                return  # a non-Node object is now in the graph: the lookups are not defined any more
         m = sim.model
         # labels: replacements and sharing
         if any(before.edges.get(e) not in (None, l) for e, l in m.edges.items()):
